@@ -314,10 +314,16 @@ RetEvent(e) ==
       ok == CASE e.res = "ok" -> acc.stopped \/ (vS.pc = vExit /\ Len(e.lines) = 0)
               [] e.res = "err" -> ~acc.stopped /\ ~vPaused /\ vS.pc # vExit /\ fails # {}
               [] OTHER -> FALSE
+      (* C18, outgoing side inside the process: over the whole run, the sequence handed to the transport (the socket's
+         outgoing channel) is the sequence of emitted messages - same number, same order-sensitive digest; the
+         framing of the transport itself is TcpEvent's business *)
+      txOK == PROP # "C18" \/ "txe" \notin DOMAIN e \/ SubSeq(e.txe, 1, 6) = SubSeq(e.txe, 7, 12)
   IN /\ IF (PROP = "C15" /\ e.res # "panic") \/ (PROP # "C15" /\ (ok \/ acc.dub)) THEN TRUE
         ELSE Rep("MISMATCH", e, "run returned", <<IF e.res = "ok" THEN "returned success although neither the exit address was reached nor a stop line received"
                                                   ELSE IF e.res = "err" THEN "returned an error although the next instruction is executable" ELSE "panic">>)
-     /\ vR' = [vR EXCEPT !.cov = cov \cup {<<"ret", e.res>>}]
+     /\ IF txOK THEN TRUE
+        ELSE Rep("MISMATCH", e, "outgoing messages", <<"the messages handed to the transport are not exactly the emitted messages, once each, in emission order">>)
+     /\ vR' = [vR EXCEPT !.cov = cov \cup {<<"ret", e.res>>} \cup (IF "txe" \in DOMAIN e /\ e.txe[2] > 0 THEN {<<"ret", "transmitted = emitted">>} ELSE {})]
 
 TcpEvent(e) ==
   /\ IF e.bytes = FlattenSeq([i \in 1..Len(e.msgs) |-> Frame(e.msgs[i])]) THEN TRUE
